@@ -2,14 +2,15 @@
 (***************************************************************************)
 (* C19 -- the uninitialized-buffer abstraction of libtw2 (buffer/src).     *)
 (*                                                                         *)
-(* One owner (Vec, ArrayVec, byte slice, slice reference) of `cap` bytes   *)
-(* of memory `mem`, a stack of open views (BufferRef values; view i+1 is a *)
-(* nested view of view i, possibly capped with cap_at), and one action per *)
-(* public call.  Every action records its name and arguments in `act` and  *)
-(* what the caller can observe in `out`; `det` says whether the step is    *)
-(* the one the detailed specification (= what the pinned code does)        *)
-(* prescribes, or another step that the property as stated still allows    *)
-(* (a write that does not fit may accept any prefix that fits).            *)
+(* One owner (Vec, ArrayVec, byte slice, slice reference, or a caller's    *)
+(* slice + counter handed to BufferRef::new) of `cap` bytes of memory      *)
+(* `mem`, a stack of open views (BufferRef values; view i+1 is a nested    *)
+(* view of view i, possibly capped with cap_at), and one action per public *)
+(* call.  Every action records its name and arguments in `act` and what    *)
+(* the caller can observe in `out`; `det` says whether the step is the one *)
+(* the detailed specification (= what the pinned code does) prescribes, or *)
+(* another step that the property as stated still allows (a write that     *)
+(* does not fit may accept any prefix that fits, ...).                     *)
 (*                                                                         *)
 (* Memory cells are bytes 0..255; DC (-1) is "unspecified" (cells of a     *)
 (* view's window that the property does not constrain).                    *)
@@ -19,7 +20,13 @@ EXTENDS Integers, Sequences, FiniteSets, TLC
 CONSTANTS MaxDepth     \* maximal number of simultaneously open views
 
 DC == -1
-Kinds == {"vec", "arrayvec", "slice", "sliceref"}
+\* "raw": the caller owns a slice and a counter and builds the view with BufferRef::new
+Kinds == {"vec", "arrayvec", "slice", "sliceref", "raw"}
+VL == {"vec", "arrayvec"}          \* owners with a length that is written back
+Resets == {"sliceref", "raw"}      \* owners that show only what the last view initialized
+\* how a view was created: with_buffer (raw owner, top level: BufferRef::new), by hand
+\* (to_to_buffer_ref + to_buffer_ref, the intermediate stays reachable), packer::with_packer
+Vias == {"with", "manual", "packer"}
 
 VARIABLES phase,  \* "idle" | "closed" | "open" | "final"
           kind,   \* backing store
@@ -28,10 +35,10 @@ VARIABLES phase,  \* "idle" | "closed" | "open" | "final"
           mem0,   \* memory at set-up (history)
           mem,    \* memory now: 1..cap -> byte | DC
           olen,   \* owner's length now (vec/arrayvec: len(); sliceref: length of the referenced slice;
-                  \*                     slice: length of the slice, constant)
-          views,  \* stack of open views [off, spare, init, log]
+                  \*                     slice: length of the slice, constant; raw: the caller's counter)
+          views,  \* stack of open views [off, spare, init, log, via]
           done,   \* history: concatenation of the bytes reported initialized by released top-level views
-                  \* (sliceref: the bytes of the last one, initially the slice itself)
+                  \* (sliceref, raw: the bytes of the last one; sliceref initially the slice itself)
           ops,    \* counted operations so far
           act, out, det
 
@@ -51,15 +58,16 @@ Rem(v) == v.spare - v.init
 RECURSIVE Clamp(_, _)
 Clamp(s, ks) == IF ks = <<>> THEN s ELSE Clamp(Min(s, Head(ks)), Tail(ks))
 
-OwnerOff == IF kind \in {"vec", "arrayvec"} THEN olen ELSE len0
-OwnerSpare == IF kind \in {"vec", "arrayvec"} THEN cap - olen ELSE olen
+OwnerOff == IF kind \in VL THEN olen ELSE len0
+OwnerSpare == IF kind \in VL THEN cap - olen ELSE IF kind = "raw" THEN cap - len0 ELSE olen
 \* what the owner itself shows after a view has been released
-Own(m, l) == IF kind \in {"vec", "arrayvec"} THEN Window(m, 0, l)
-             ELSE IF kind = "sliceref" THEN Window(m, len0, l)
+Own(m, l) == IF kind \in VL THEN Window(m, 0, l)
+             ELSE IF kind \in Resets THEN Window(m, len0, l)
              ELSE <<>>
-OlenAfter(init) == IF kind \in {"vec", "arrayvec"} THEN olen + init
-                   ELSE IF kind = "sliceref" THEN init
+OlenAfter(init) == IF kind \in VL THEN olen + init
+                   ELSE IF kind \in Resets THEN init
                    ELSE olen
+DoneAfter(log) == (IF kind \in Resets THEN <<>> ELSE done) \o log
 
 Init ==
   /\ phase = "idle" /\ kind = "none" /\ cap = 0 /\ len0 = 0 /\ mem0 = <<>> /\ mem = <<>>
@@ -74,31 +82,33 @@ Setup(a) ==
   /\ a.kind \in Kinds /\ a.cap >= 0 /\ a.len0 \in 0..a.cap /\ Len(a.mem0) = a.cap /\ Bytes(a.mem0)
   /\ phase' = "closed" /\ kind' = a.kind /\ cap' = a.cap /\ len0' = a.len0
   /\ mem0' = a.mem0 /\ mem' = a.mem0
-  /\ olen' = IF a.kind \in {"vec", "arrayvec"} THEN a.len0 ELSE a.cap - a.len0
+  /\ olen' = IF a.kind \in VL THEN a.len0 ELSE IF a.kind = "raw" THEN 0 ELSE a.cap - a.len0
   /\ views' = <<>> /\ ops' = 0
   /\ done' = IF a.kind = "sliceref" THEN SubSeq(a.mem0, a.len0 + 1, a.cap) ELSE <<>>
   /\ act' = a /\ out' = [r |-> "ok"] /\ det' = TRUE
 
-(* ---- with_buffer(owner[.cap_at(k)...], |b| ...).  a = [a |-> "open", ks] *)
+(* ---- with_buffer(owner[.cap_at(k)...], |b| ...) / with_packer(..) / to_to_buffer_ref + to_buffer_ref by *)
+(* hand; raw owner: BufferRef::new(slice, &mut 0).   a = [a |-> "open", ks, via]                           *)
 OpenTop(a) ==
   /\ phase = "closed"
+  /\ (kind = "raw") => (a.ks = <<>> /\ a.via = "with")
   /\ LET s == Clamp(OwnerSpare, a.ks) IN
-     /\ views' = <<[off |-> OwnerOff, spare |-> s, init |-> 0, log |-> <<>>]>>
+     /\ views' = <<[off |-> OwnerOff, spare |-> s, init |-> 0, log |-> <<>>, via |-> a.via]>>
      /\ out' = [r |-> "ok", rem |-> s]
   /\ phase' = "open" /\ ops' = ops + 1 /\ act' = a /\ det' = TRUE
   /\ UNCHANGED <<kind, cap, len0, mem0, mem, olen, done>>
 
-(* ---- with_buffer((&mut b)[.cap_at(k)...], |c| ...) inside a view *)
+(* ---- with_buffer((&mut b)[.cap_at(k)...], |c| ...) inside a view (b a BufferRef or a Packer) *)
 OpenNested(a) ==
   /\ phase = "open" /\ Len(views) < MaxDepth
   /\ LET v == Top
          s == Clamp(Rem(v), a.ks) IN
-     /\ views' = Append(views, [off |-> v.off + v.init, spare |-> s, init |-> 0, log |-> <<>>])
+     /\ views' = Append(views, [off |-> v.off + v.init, spare |-> s, init |-> 0, log |-> <<>>, via |-> a.via])
      /\ out' = [r |-> "ok", rem |-> s]
   /\ ops' = ops + 1 /\ act' = a /\ det' = TRUE
   /\ UNCHANGED <<phase, kind, cap, len0, mem0, mem, olen, done>>
 
-Open(a) == IF phase = "closed" THEN OpenTop(a) ELSE OpenNested(a)
+Open(a) == a.via \in Vias /\ IF phase = "closed" THEN OpenTop(a) ELSE OpenNested(a)
 
 (* ---- b.write(bs) / b.extend(iterator yielding bs).  a = [a |-> "write", bs] | [a |-> "extend", bs, it] *)
 (* Fits: all bytes are stored and counted.  Does not fit: CapacityError; the property allows   *)
@@ -115,76 +125,146 @@ Accept(a, m, res, d) ==
   /\ ops' = ops + 1 /\ act' = a
   /\ UNCHANGED <<phase, kind, cap, len0, mem0, olen, done>>
 
+WriteLike(a) ==
+  IF Len(a.bs) <= Rem(Top)
+  THEN Accept(a, Len(a.bs), "ok", TRUE)
+  ELSE \E m \in 0..Rem(Top) : Accept(a, m, "cap", m = Rem(Top))
+
 \* extend is given an iterator; a.it says what the iterator claims about its length (size_hint):
 \* "exact" (a slice iterator), "nohint" (no upper bound, iter::from_fn), "under" (claims exactly one byte
 \* fewer than it yields), "over" (claims exactly one byte more than it yields).  What extend must do depends
 \* only on the bytes the iterator actually yields (a.bs): the hint is not part of the contract.
 ItKinds == {"exact", "nohint", "under", "over"}
 Write(a) ==
-  /\ phase = "open" /\ Bytes(a.bs)
+  /\ phase = "open" /\ Bytes(a.bs) /\ Top.via # "packer"
   /\ (a.a = "extend") => (a.it \in ItKinds)
-  /\ IF Len(a.bs) <= Rem(Top)
-     THEN Accept(a, Len(a.bs), "ok", TRUE)
-     ELSE \E m \in 0..Rem(Top) : Accept(a, m, "cap", m = Rem(Top))
+  /\ WriteLike(a)
+
+(* ---- a view created by packer::with_packer is a Packer: p.write_raw / write_rest / write_string / *)
+(* write_int / write_data.  a = [a |-> "pk", op, v, bs]: bs = the bytes the call writes (what the   *)
+(* same call writes into an ample buffer: the encoding is not C19's business); every one of them is *)
+(* a sequence of BufferRef::write calls that stops at the first CapacityError, i.e. one write of bs *)
+PkOps == {"raw", "rest", "string", "int", "data"}
+Pk(a) ==
+  /\ phase = "open" /\ Bytes(a.bs) /\ Top.via = "packer" /\ a.op \in PkOps
+  /\ WriteLike(a)
 
 (* ---- unsafe: b.uninitialized_mut()[..n] = bs; b.advance(n)   (n <= remaining is the caller's *)
 (* obligation: advance asserts it)                                                              *)
 Advance(a) ==
-  /\ phase = "open" /\ Bytes(a.bs) /\ Len(a.bs) <= Rem(Top)
+  /\ phase = "open" /\ Bytes(a.bs) /\ Len(a.bs) <= Rem(Top) /\ Top.via # "packer"
   /\ Accept(a, Len(a.bs), "ok", TRUE)
 
 (* ---- unsafe: b.uninitialized_mut()[..n] = bs without advance: stored but not counted *)
 Scribble(a) ==
-  /\ phase = "open" /\ Bytes(a.bs) /\ Len(a.bs) <= Rem(Top)
+  /\ phase = "open" /\ Bytes(a.bs) /\ Len(a.bs) <= Rem(Top) /\ Top.via # "packer"
   /\ mem' = Put(mem, Top.off + Top.init, a.bs)
   /\ out' = [r |-> "ok", rem |-> Rem(Top)]
   /\ ops' = ops + 1 /\ act' = a /\ det' = TRUE
   /\ UNCHANGED <<phase, kind, cap, len0, mem0, olen, views, done>>
 
-(* ---- the closure returns (a.a = "close"), or returns after b.initialized() (a.a = "closeinit", *)
-(* data = the slice it returned).  The intermediate object is dropped: nested: the parent counts  *)
-(* the bytes; top level: the owner's length is written back.                                      *)
+(* ---- the closure returns (a.a = "close"), or returns after b.initialized() / p.written()       *)
+(* (a.a = "closeinit", data = the slice it returned).  The intermediate object is dropped:        *)
+(* nested: the parent counts the bytes; top level: the owner's length is written back.            *)
 \* release of the innermost view `v` (its final record), `data` = the slice handed to the caller,
-\* `m` = the memory at that moment
-Release(a, v, data, m, d) ==
+\* `m` = the memory at that moment, `res` = what the call reports
+Release(a, v, data, m, d, res) ==
   LET n == Len(views) IN
   /\ IF n > 1
      THEN LET p == views[n - 1]
               p2 == [p EXCEPT !.init = p.init + v.init, !.log = p.log \o v.log] IN
           /\ views' = Append(SubSeq(views, 1, n - 2), p2)
-          /\ out' = [r |-> "ok", data |-> data, rem |-> Rem(p2)]
+          /\ out' = [r |-> res, data |-> data, rem |-> Rem(p2)]
           /\ UNCHANGED <<phase, olen, done>>
      ELSE /\ views' = <<>>
           /\ phase' = "closed"
           /\ olen' = OlenAfter(v.init)
-          /\ done' = (IF kind = "sliceref" THEN <<>> ELSE done) \o v.log
-          /\ out' = [r |-> "ok", data |-> data, olen |-> OlenAfter(v.init), own |-> Own(m, OlenAfter(v.init))]
+          /\ done' = DoneAfter(v.log)
+          /\ out' = [r |-> res, data |-> data, olen |-> OlenAfter(v.init), own |-> Own(m, OlenAfter(v.init))]
   /\ act' = a /\ det' = d /\ ops' = ops + 1
   /\ UNCHANGED <<kind, cap, len0, mem0>>
 
 Close(a) ==
   /\ phase = "open"
-  /\ Release(a, Top, IF a.a = "closeinit" THEN Top.log ELSE <<>>, mem, TRUE)
+  /\ Release(a, Top, IF a.a = "closeinit" THEN Top.log ELSE <<>>, mem, TRUE, "ok")
   /\ UNCHANGED mem
 
+(* ---- ToBufferRef::to_buffer_ref called a second time on one intermediate: the BufferRef of a view  *)
+(* created by hand is dropped and a new one is made from the same intermediate.  a = [a |-> "reopen"] *)
+(* Nothing counted yet: the same window again.  Bytes already counted: BufferRef::new demands a zero  *)
+(* count (debug assertion, the harness is built with debug assertions) and cap_at asserts it: the     *)
+(* refusal is a panic, the intermediate is dropped by the unwinding and writes its count back like    *)
+(* any release.  A build that does not check hands out a view of the same window that continues at    *)
+(* the count (det = FALSE): that keeps everything the property states.                                *)
+Reopen(a) ==
+  /\ phase = "open" /\ Top.via = "manual"
+  /\ IF Top.init = 0
+     THEN /\ out' = [r |-> "ok", rem |-> Rem(Top)] /\ det' = TRUE
+          /\ ops' = ops + 1 /\ act' = a
+          /\ UNCHANGED <<phase, kind, cap, len0, mem0, mem, olen, views, done>>
+     ELSE \/ Release(a, Top, <<>>, mem, TRUE, "refused") /\ UNCHANGED mem
+          \/ /\ out' = [r |-> "ok", rem |-> Rem(Top)] /\ det' = FALSE
+             /\ ops' = ops + 1 /\ act' = a
+             /\ UNCHANGED <<phase, kind, cap, len0, mem0, mem, olen, views, done>>
+
+(* ---- BufferRef::new(slice, &mut n) with n > 0 ("initialized must initially be zero").               *)
+(* a = [a |-> "rawdirty", n].  Refused by a debug assertion; a build without it hands out a view that  *)
+(* reports the first n bytes of the slice as initialized (det = FALSE; the caller broke the contract). *)
+RawDirty(a) ==
+  /\ phase = "closed" /\ kind = "raw" /\ a.n > 0 /\ a.n <= cap - len0
+  /\ \/ /\ out' = [r |-> "refused"] /\ det' = TRUE
+        /\ UNCHANGED <<phase, views>>
+     \/ /\ views' = <<[off |-> len0, spare |-> cap - len0, init |-> a.n, log |-> Window(mem, len0, a.n), via |-> "with"]>>
+        /\ phase' = "open"
+        /\ out' = [r |-> "ok", rem |-> cap - len0 - a.n] /\ det' = FALSE
+  /\ ops' = ops + 1 /\ act' = a
+  /\ UNCHANGED <<kind, cap, len0, mem0, mem, olen, done>>
+
+(* ---- readers.  a.rd = [k |-> kind of std::io::Read implementation, ...]; a.bs = the bytes it holds.  *)
+(* RdGives = the bytes one `read` call stores into a buffer of `room` bytes (and, unless the call       *)
+(* fails, reports):                                                                                     *)
+(*   slice (&[u8]), mutref (&mut R), boxed (Box<R>), bufreader (io::BufReader<&[u8]> of capacity rd.j), *)
+(*   file (fs::File): what is there and fits;   empty (io::Empty): nothing;   repeat (io::Repeat of     *)
+(*   byte rd.j): fills the room;   take (io::Take, limit rd.j), short (a reader that hands out at most  *)
+(*   rd.j bytes per call): a short read;   chain (io::Chain of a.bs and rd.bs2): the first reader       *)
+(*   unless it is exhausted;   err: stores up to rd.j bytes and then fails with an io::Error.           *)
+RdKinds == {"slice", "mutref", "boxed", "bufreader", "file", "empty", "repeat", "take", "short", "chain", "err"}
+RdGives(a, room) ==
+  LET k == a.rd.k IN
+  IF k = "empty" THEN <<>>
+  ELSE IF k = "repeat" THEN [i \in 1..room |-> a.rd.j]
+  ELSE IF k \in {"take", "short", "err"} THEN Take(a.bs, Min(Min(Len(a.bs), a.rd.j), room))
+  ELSE IF k = "chain" THEN (IF room = 0 THEN <<>>
+                            ELSE IF a.bs # <<>> THEN Take(a.bs, Min(Len(a.bs), room))
+                            ELSE Take(a.rd.bs2, Min(Len(a.rd.bs2), room)))
+  ELSE Take(a.bs, Min(Len(a.bs), room))
+RdFails(a) == a.rd.k = "err"
+RdOk(a) == /\ a.rd.k \in RdKinds /\ Bytes(a.bs)
+           /\ (a.rd.k = "chain") => Bytes(a.rd.bs2)
+           /\ (a.rd.k = "repeat") => (a.rd.j \in 0..255)
+           /\ (a.rd.k \in {"take", "short", "err", "bufreader"}) => (a.rd.j >= 0)
+
 (* ---- reader.read_buffer_ref(b): the view itself -- which may already hold bytes -- is handed to *)
-(* a byte-slice reader holding a.bs: min(len bs, remaining) bytes are stored behind what is there  *)
-(* and counted, the view is consumed and released.  a = [a |-> "readclose", bs, claim]; claim = 0: *)
-(* the reader reports the number of bytes it stored (claim > 0: see ReadOver below).  The slice    *)
+(* the reader: RdGives bytes are stored behind what is there and counted, the view is consumed and *)
+(* released.  a = [a |-> "readclose", bs, claim, rd]; claim = 0: the reader reports the number of  *)
+(* bytes it stored (claim > 0: see ReadOver below).  The slice                                     *)
 (* returned is everything the view holds, old bytes first (what the code does: initialized());     *)
 (* the documentation of ReadBufferRef speaks of "the newly written bytes": returning exactly the   *)
 (* bytes the reader stored is the other reading the property allows (det = FALSE).  Any other      *)
-(* window (e.g. the first `read` bytes of the view) reports bytes that are neither.                *)
+(* window (e.g. the first `read` bytes of the view) reports bytes that are neither.  A reader that *)
+(* fails: the bytes it stored are in the spare memory, nothing is counted, no slice.               *)
 ReadClose(a) ==
-  /\ phase = "open" /\ Bytes(a.bs)
+  /\ phase = "open" /\ RdOk(a) /\ Top.via # "packer"
   /\ LET v == Top
-         m == Min(Len(a.bs), Rem(v))
-         new == Take(a.bs, m)
+         new == RdGives(a, Rem(v))
+         m == Len(new)
          v2 == [v EXCEPT !.init = v.init + m, !.log = v.log \o new]
          mem2 == Put(mem, v.off + v.init, new) IN
      /\ mem' = mem2
-     /\ \/ Release(a, v2, v2.log, mem2, TRUE)
-        \/ v.log # <<>> /\ Release(a, v2, new, mem2, FALSE)
+     /\ IF RdFails(a)
+        THEN Release(a, v, <<>>, mem2, TRUE, "ioerr")
+        ELSE \/ Release(a, v2, v2.log, mem2, TRUE, "ok")
+             \/ v.log # <<>> /\ Release(a, v2, new, mem2, FALSE, "ok")
 
 (* ---- a panic inside the innermost closure unwinds through every open view: all intermediates *)
 (* are dropped, innermost first.                                                                *)
@@ -197,7 +277,7 @@ Unwind(a) ==
   /\ phase = "open"
   /\ LET tot == SumInit(views) IN
      /\ olen' = OlenAfter(tot)
-     /\ done' = (IF kind = "sliceref" THEN <<>> ELSE done) \o CatLog(views)
+     /\ done' = DoneAfter(CatLog(views))
      /\ out' = [r |-> "ok", olen |-> OlenAfter(tot), own |-> Own(mem, OlenAfter(tot))]
   /\ views' = <<>> /\ phase' = "closed"
   /\ ops' = ops + 1 /\ act' = a /\ det' = TRUE
@@ -208,7 +288,7 @@ Unwind(a) ==
 (* a = [a |-> "overadvance", n], n > remaining: b.advance(n) inside the closure, the panic is     *)
 (* caught there and the view is used further.                                                     *)
 OverAdvance(a) ==
-  /\ phase = "open" /\ a.n > Rem(Top)
+  /\ phase = "open" /\ a.n > Rem(Top) /\ Top.via # "packer"
   /\ out' = [r |-> "refused", rem |-> Rem(Top)]
   /\ ops' = ops + 1 /\ act' = a /\ det' = TRUE
   /\ UNCHANGED <<phase, kind, cap, len0, mem0, mem, olen, views, done>>
@@ -217,13 +297,13 @@ OverAdvance(a) ==
 (* that stores min(len bs, remaining) bytes but reports `claim`: the bytes are in the spare memory  *)
 (* but not counted, the refusal unwinds through every open view (as Unwind).                        *)
 ReadOver(a) ==
-  /\ phase = "open" /\ Bytes(a.bs) /\ a.claim > Rem(Top)
+  /\ phase = "open" /\ Bytes(a.bs) /\ a.claim > Rem(Top) /\ Top.via # "packer"
   /\ LET v == Top
          mem2 == Put(mem, v.off + v.init, Take(a.bs, Min(Len(a.bs), Rem(v))))
          tot == SumInit(views) IN
      /\ mem' = mem2
      /\ olen' = OlenAfter(tot)
-     /\ done' = (IF kind = "sliceref" THEN <<>> ELSE done) \o CatLog(views)
+     /\ done' = DoneAfter(CatLog(views))
      /\ out' = [r |-> "refused", olen |-> OlenAfter(tot), own |-> Own(mem2, OlenAfter(tot))]
   /\ views' = <<>> /\ phase' = "closed"
   /\ ops' = ops + 1 /\ act' = a /\ det' = TRUE
@@ -236,39 +316,105 @@ ReadOver(a) ==
 Touch(a) ==
   /\ phase \in {"closed", "open"}
   /\ IF phase = "closed"
-     THEN /\ olen' = OlenAfter(0)
-          /\ done' = IF kind = "sliceref" THEN <<>> ELSE done
+     THEN /\ kind # "raw"
+          /\ olen' = OlenAfter(0)
+          /\ done' = DoneAfter(<<>>)
           /\ out' = [r |-> "ok", olen |-> OlenAfter(0), own |-> Own(mem, OlenAfter(0))]
      ELSE /\ out' = [r |-> "ok", rem |-> Rem(Top)]
           /\ UNCHANGED <<olen, done>>
   /\ ops' = ops + 1 /\ act' = a /\ det' = TRUE
   /\ UNCHANGED <<phase, kind, cap, len0, mem0, mem, views>>
 
-(* ---- reader.read_buffer(target[.cap_at(k)...]) with a byte-slice reader holding a.bs:         *)
-(* a view is opened, min(len bs, spare) bytes are stored through uninitialized_mut + advance,    *)
-(* initialized() is returned, the view is released.  a = [a |-> "read", bs, ks]                  *)
+(* ---- reader.read_buffer(target[.cap_at(k)...]) (raw owner at top level: read_buffer_ref on a view *)
+(* made by BufferRef::new): a view is opened, the reader stores RdGives bytes through                *)
+(* uninitialized_mut + advance, initialized() is returned, the view is released.                     *)
+(* a = [a |-> "read", bs, ks, rd].  A reader that fails: stored, not counted, no slice.              *)
 Read(a) ==
-  /\ phase \in {"closed", "open"} /\ Bytes(a.bs)
+  /\ phase \in {"closed", "open"} /\ RdOk(a)
   /\ IF phase = "closed"
      THEN LET s == Clamp(OwnerSpare, a.ks)
-              m == Min(Len(a.bs), s)
-              m2 == Put(mem, OwnerOff, Take(a.bs, m)) IN
+              g == RdGives(a, s)
+              m == IF RdFails(a) THEN 0 ELSE Len(g)
+              m2 == Put(mem, OwnerOff, g) IN
+          /\ (kind = "raw") => (a.ks = <<>>)
           /\ mem' = m2
           /\ olen' = OlenAfter(m)
-          /\ done' = (IF kind = "sliceref" THEN <<>> ELSE done) \o Take(a.bs, m)
-          /\ out' = [r |-> "ok", data |-> Take(a.bs, m), olen |-> OlenAfter(m), own |-> Own(m2, OlenAfter(m))]
+          /\ done' = DoneAfter(Take(g, m))
+          /\ out' = IF RdFails(a)
+                    THEN [r |-> "ioerr", olen |-> OlenAfter(0), own |-> Own(m2, OlenAfter(0))]
+                    ELSE [r |-> "ok", data |-> g, olen |-> OlenAfter(m), own |-> Own(m2, OlenAfter(m))]
           /\ UNCHANGED <<views, phase>>
      ELSE LET v == Top
               n == Len(views)
               s == Clamp(Rem(v), a.ks)
-              m == Min(Len(a.bs), s)
-              v2 == [v EXCEPT !.init = v.init + m, !.log = v.log \o Take(a.bs, m)] IN
-          /\ mem' = Put(mem, v.off + v.init, Take(a.bs, m))
+              g == RdGives(a, s)
+              m == IF RdFails(a) THEN 0 ELSE Len(g)
+              v2 == [v EXCEPT !.init = v.init + m, !.log = v.log \o Take(g, m)] IN
+          /\ mem' = Put(mem, v.off + v.init, g)
           /\ views' = [views EXCEPT ![n] = v2]
-          /\ out' = [r |-> "ok", data |-> Take(a.bs, m), rem |-> Rem(v2)]
+          /\ out' = IF RdFails(a) THEN [r |-> "ioerr", rem |-> Rem(v2)]
+                    ELSE [r |-> "ok", data |-> g, rem |-> Rem(v2)]
           /\ UNCHANGED <<olen, done, phase>>
   /\ ops' = ops + 1 /\ act' = a /\ det' = TRUE
   /\ UNCHANGED <<kind, cap, len0, mem0>>
+
+(* ---- users of the buffer crate inside libtw2 as one composite step.  Every one of these call sites   *)
+(* does with_buffer(target[.cap_at(k)...], |b| ...), stores bytes into the fresh view, and returns.     *)
+(* a = [a |-> "user", who, bs, ks, ret]; a.bs = the bytes the call writes (= what the same call writes  *)
+(* into an ample buffer: what they *are* is the codec's business, not C19's); ret: the call returns the *)
+(* initialized slice.  The C19 counting law: the bytes reported initialized are the bytes written, the  *)
+(* container (or the enclosing view) grows by exactly that.                                             *)
+(*   huffd  huffman::decompress_into(input, target)   huffc  huffman::compress_into(input, target):     *)
+(*          fits: bs stored, counted, returned; does not fit: what fits is stored through               *)
+(*          uninitialized_mut(), nothing is counted, CapacityError.                                     *)
+(*   strbytes  packer::string_to_bytes(target, s): two writes; does not fit: what fits stays counted.   *)
+(*   feed   net::Connection::feed(.., packet, target) with a compressed packet: nested views four deep  *)
+(*          (feed -> Packet::read -> Packet::decompress -> Huffman::decompress): the three bytes of the *)
+(*          rebuilt header are written and counted first, then the decompressed payload; payload that   *)
+(*          does not fit: the header stays counted.  (bs = <<>>: a packet that needs no decompression.) *)
+(* Does not fit, property level: any prefix may have been counted (det = FALSE).                        *)
+Users == {"huffd", "huffc", "strbytes", "feed"}
+UserDetCnt(who, s) == IF who \in {"huffd", "huffc"} THEN 0 ELSE IF who = "feed" THEN Min(3, s) ELSE s
+UserOut(a, res, data, rest) == IF a.ret THEN [r |-> res, data |-> data] @@ rest ELSE [r |-> res] @@ rest
+User(a) ==
+  /\ phase \in {"closed", "open"} /\ a.who \in Users /\ Bytes(a.bs) /\ a.ret \in BOOLEAN
+  /\ (phase = "closed" /\ kind = "raw") => FALSE
+  /\ LET room == IF phase = "closed" THEN OwnerSpare ELSE Rem(Top)
+         off == IF phase = "closed" THEN OwnerOff ELSE Top.off + Top.init
+         s == Clamp(room, a.ks)
+         fits == Len(a.bs) <= s
+         \* a plain slice shows no count: one step, the window unspecified beyond the counted bytes
+         blind == phase = "closed" /\ kind = "slice" IN
+     \E m \in (IF fits THEN {Len(a.bs)} ELSE IF blind THEN {UserDetCnt(a.who, s)} ELSE 0..s) :
+        LET d == fits \/ m = UserDetCnt(a.who, s)
+            m2 == IF d /\ (fits \/ ~blind) THEN Put(mem, off, Take(a.bs, Min(Len(a.bs), s)))
+                  ELSE Put(Blur(mem, off, s), off, Take(a.bs, m))
+            res == IF fits THEN "ok" ELSE "cap"
+            data == IF fits THEN a.bs ELSE <<>> IN
+        /\ mem' = m2 /\ det' = d
+        /\ IF phase = "closed"
+           THEN /\ olen' = OlenAfter(m)
+                /\ done' = DoneAfter(Take(a.bs, m))
+                /\ out' = UserOut(a, res, data, [olen |-> OlenAfter(m), own |-> Own(m2, OlenAfter(m))])
+                /\ UNCHANGED <<views, phase>>
+           ELSE LET v == Top
+                    v2 == [v EXCEPT !.init = v.init + m, !.log = v.log \o Take(a.bs, m)] IN
+                /\ views' = [views EXCEPT ![Len(views)] = v2]
+                /\ out' = UserOut(a, res, data, [rem |-> Rem(v2)])
+                /\ UNCHANGED <<olen, done, phase>>
+  /\ ops' = ops + 1 /\ act' = a
+  /\ UNCHANGED <<kind, cap, len0, mem0>>
+
+(* ---- the owner reallocates between two views: Vec::reserve_exact.  a = [a |-> "grow", cap, tail]:  *)
+(* the new capacity and the contents of the new spare memory (the harness fills it: reading            *)
+(* uninitialized memory is not allowed).  Length and contents stay.                                    *)
+Grow(a) ==
+  /\ phase = "closed" /\ kind = "vec" /\ a.cap > cap /\ Len(a.tail) = a.cap - olen /\ Bytes(a.tail)
+  /\ cap' = a.cap
+  /\ mem' = Take(mem, olen) \o a.tail
+  /\ out' = [r |-> "ok", olen |-> olen, own |-> Own(mem, olen)]
+  /\ ops' = ops + 1 /\ act' = a /\ det' = TRUE
+  /\ UNCHANGED <<phase, kind, len0, mem0, olen, views, done>>
 
 (* ---- end of a run: the whole memory is inspected *)
 Final(a) ==
@@ -282,14 +428,19 @@ Step(a) ==
   CASE a.a = "setup" -> Setup(a)
     [] a.a = "open" -> Open(a)
     [] a.a \in {"write", "extend"} -> Write(a)
+    [] a.a = "pk" -> Pk(a)
     [] a.a = "advance" -> Advance(a)
     [] a.a = "scribble" -> Scribble(a)
     [] a.a \in {"close", "closeinit"} -> Close(a)
+    [] a.a = "reopen" -> Reopen(a)
+    [] a.a = "rawdirty" -> RawDirty(a)
     [] a.a = "unwind" -> Unwind(a)
     [] a.a = "read" -> Read(a)
     [] a.a = "readclose" -> IF a.claim = 0 THEN ReadClose(a) ELSE ReadOver(a)
     [] a.a = "overadvance" -> OverAdvance(a)
     [] a.a = "touch" -> Touch(a)
+    [] a.a = "user" -> User(a)
+    [] a.a = "grow" -> Grow(a)
     [] a.a = "final" -> Final(a)
     [] OTHER -> FALSE
 
@@ -317,9 +468,9 @@ Contents ==
 \* the owner's bytes are the old prefix followed by everything reported initialized, in order
 OwnerBytes ==
   phase \in {"closed", "final"} =>
-     CASE kind \in {"vec", "arrayvec"} -> /\ olen = len0 + Len(done)
-                                          /\ Window(mem, 0, olen) = Take(mem0, len0) \o done
-       [] kind = "sliceref" -> /\ olen = Len(done) /\ Window(mem, len0, olen) = done
+     CASE kind \in VL -> /\ olen = len0 + Len(done)
+                         /\ Window(mem, 0, olen) = Take(mem0, len0) \o done
+       [] kind \in Resets -> /\ olen = Len(done) /\ Window(mem, len0, olen) = done
        [] OTHER -> TRUE
 
 \* nothing outside the owner's spare memory is ever touched (never past the capacity,
@@ -334,33 +485,56 @@ Frame ==
   [][ phase = "open" /\ phase' \in {"open", "closed"} =>
         \A i \in 1..cap : (i <= Top.off + Top.init \/ i > Top.off + Top.spare) => mem'[i] = mem[i] ]_vars
 
+\* a composite call on the owner touches only the owner's spare memory
+FrameTop ==
+  [][ (phase = "closed" /\ act'.a \in {"read", "user", "touch"}) =>
+        /\ cap' = cap
+        /\ \A i \in 1..cap : (i <= OwnerOff \/ i > OwnerOff + OwnerSpare) => mem'[i] = mem[i] ]_vars
+
 \* releasing a view adds exactly its count to the parent / owner
+ReleaseAdds(a) == IF a.a = "readclose" /\ ~RdFails(a) THEN Len(RdGives(a, Rem(Top))) ELSE 0
 WriteBack ==
-  [][ (act'.a \in {"close", "closeinit"} \/ (act'.a = "readclose" /\ act'.claim = 0)) =>
-        LET add == Top.init + (IF act'.a = "readclose" THEN Min(Len(act'.bs), Rem(Top)) ELSE 0) IN
+  [][ (act'.a \in {"close", "closeinit"} \/ (act'.a = "readclose" /\ act'.claim = 0)
+       \/ (act'.a = "reopen" /\ out'.r = "refused")) =>
+        LET add == Top.init + ReleaseAdds(act') IN
         IF Len(views) > 1
         THEN views'[Len(views) - 1].init = views[Len(views) - 1].init + add
         ELSE olen' = OlenAfter(add) ]_vars
 
-\* a count above what is left is refused and changes no count; dropping an unused intermediate changes no count
+\* a count above what is left is refused and changes no count; dropping an unused intermediate changes no count;
+\* a second to_buffer_ref on an intermediate never loses or invents a count
 RefusedCounts ==
   [][ (act'.a = "overadvance" => (out'.r = "refused" /\ views' = views /\ olen' = olen /\ mem' = mem))
       /\ ((act'.a = "readclose" /\ act'.claim > 0) => (out'.r = "refused" /\ olen' = OlenAfter(SumInit(views))))
-      /\ (act'.a = "touch" => (views' = views /\ mem' = mem /\ (kind # "sliceref" => olen' = olen))) ]_vars
+      /\ (act'.a = "touch" => (views' = views /\ mem' = mem /\ (kind \notin Resets => olen' = olen)))
+      /\ ((act'.a = "reopen" /\ out'.r = "ok") => (views' = views /\ mem' = mem /\ olen' = olen)) ]_vars
 
 \* every slice handed to the caller consists of bytes written through the view it comes from, in order:
 \* the whole view (initialized(), read_buffer_ref) or its newest part (read_buffer on a fresh view,
 \* the documented reading of read_buffer_ref) -- never a window that mixes or repeats
 Suffix(s, t) == Len(s) <= Len(t) /\ SubSeq(t, Len(t) - Len(s) + 1, Len(t)) = s
 SliceReported ==
-  [][ (act'.a = "closeinit" \/ (act'.a = "readclose" /\ act'.claim = 0)) =>
-        LET whole == Top.log \o (IF act'.a = "readclose" THEN Take(act'.bs, Min(Len(act'.bs), Rem(Top))) ELSE <<>>) IN
+  [][ (act'.a = "closeinit" \/ (act'.a = "readclose" /\ act'.claim = 0 /\ ~RdFails(act'))) =>
+        LET whole == Top.log \o (IF act'.a = "readclose" THEN RdGives(act', Rem(Top)) ELSE <<>>) IN
         /\ Suffix(out'.data, whole)
         /\ (det' => out'.data = whole) ]_vars
 
 \* a write that does not fit is refused, and what was counted fits
 Refusal ==
-  [][ (act'.a \in {"write", "extend"}) =>
+  [][ (act'.a \in {"write", "extend", "pk"}) =>
         /\ (out'.r = "cap") = (Len(act'.bs) > Rem(Top))
         /\ out'.rem >= 0 ]_vars
+
+\* the counting law at the call sites inside libtw2: what a call reports (its slice, the growth of the
+\* container or of the enclosing view) is a prefix of the bytes it writes, all of them when they fit
+Grew == IF phase = "closed"
+        THEN (IF kind \in VL THEN olen' - olen ELSE IF kind \in Resets THEN olen' ELSE 0)
+        ELSE views'[Len(views)].init - Top.init
+UserCounts ==
+  [][ (act'.a = "user") =>
+        LET room == Clamp(IF phase = "closed" THEN OwnerSpare ELSE Rem(Top), act'.ks) IN
+        /\ (out'.r = "ok") = (Len(act'.bs) <= room)
+        /\ (kind # "slice" \/ phase = "open") => /\ Grew <= room
+                                                  /\ (out'.r = "ok" => Grew = Len(act'.bs))
+        /\ (act'.ret /\ out'.r = "ok") => out'.data = act'.bs ]_vars
 =============================================================================
